@@ -105,3 +105,26 @@ Definition clone_from_root (h:heap) (node:nat) : hres (heap * nat) :=
       | HFuel => HFuel | HBad => HBad end
     | HFuel => HFuel | HBad => HBad end
   | HFuel => HFuel | HBad => HBad end.
+
+(* BinaryTreeNode.rotate (tree.py:86-113), pointer write by pointer write: parent.set_left(node.right) / set_right(node.left) with the
+   child's parent write, node.right/left = parent, parent.parent = node, node.parent = grand_parent, grand_parent.left/right = node *)
+Definition is_ptr (o:option nat) (a:nat) : bool := match o with Some x => Nat.eqb x a | None => false end.
+Definition hrotate (h:heap) (node:nat) : heap :=
+  match nth_error h node with None => h | Some n =>
+  match h_p n with None => h | Some parent =>
+  match nth_error h parent with None => h | Some pn =>
+    let gp := h_p pn in
+    let h1 :=
+      if is_ptr (h_l pn) node then
+        let h' := upd h parent (set_l (h_r n)) in
+        let h'' := match h_r n with Some c => upd h' c (set_p (Some parent)) | None => h' end in
+        upd (upd h'' node (set_r (Some parent))) parent (set_p (Some node))
+      else
+        let h' := upd h parent (set_r (h_l n)) in
+        let h'' := match h_l n with Some c => upd h' c (set_p (Some parent)) | None => h' end in
+        upd (upd h'' node (set_l (Some parent))) parent (set_p (Some node)) in
+    let h2 := upd h1 node (set_p gp) in
+    match gp with None => h2 | Some g =>
+      match nth_error h2 g with None => h2 | Some gn =>
+        if is_ptr (h_l gn) parent then upd h2 g (set_l (Some node)) else upd h2 g (set_r (Some node)) end end end end end.
+
